@@ -301,12 +301,20 @@ func restoreFile(name string, backupFi fs.FileInfo, base, backup FS) (err error)
 	if err != nil {
 		return err
 	}
-	if !fi.Mode().IsRegular() || (baseExists && !baseFi.Mode().IsRegular()) {
+	if !fi.Mode().IsRegular() {
 		// remove dir/symlink/etc and create a file there
 		err = base.RemoveAll(name)
 		if err != nil {
 			// we failed to remove the directory
 			// we cannot restore the file, as the directory still exists
+			return err
+		}
+	} else if baseExists && !baseFi.Mode().IsRegular() {
+		// a directory or symlink took the place of the file: everything the transaction
+		// created below it has been removed by now, anything still in there belongs to
+		// somebody else and must not be deleted (no RemoveAll)
+		err = base.Remove(name)
+		if err != nil {
 			return err
 		}
 	}
@@ -349,8 +357,10 @@ func restoreSymlink(name string, backupFi fs.FileInfo, base, backup FS) (err err
 		return err
 	}
 	if newFileExists {
-		// remove dir/symlink/etc and create a new symlink there
-		err = base.RemoveAll(name)
+		// remove dir/symlink/etc and create a new symlink there; what the transaction created
+		// below a directory has been removed by now, foreign content must not be deleted
+		// (no RemoveAll)
+		err = base.Remove(name)
 		if err != nil {
 			// in case we fail to remove the new file,
 			// we cannot restore the symlink
